@@ -172,16 +172,18 @@ pub struct Profile {
     pub ps_names: bool,
     pub anchors: bool,
     pub kerning: bool,
+    pub instances: bool,
+    pub flat_maps: bool,
 }
 
 impl Profile {
     pub fn outlines() -> Profile {
         Profile { min_axes: 1, max_axes: 3, max_glyphs: 8, min_glyphs: 2, outlines: true, cubic: true, components: 4, transforms: true, mixed: true, sparse: 3,
-            order_variety: false, non_export: true, metrics_class_a: true, vertical: true, half_coords: true, maps: true, awkward_axes: false, multi_codepoints: false, ps_names: false, anchors: false, kerning: false }
+            order_variety: false, non_export: true, metrics_class_a: true, vertical: true, half_coords: true, maps: true, awkward_axes: false, multi_codepoints: false, ps_names: false, anchors: false, kerning: false, instances: false, flat_maps: false }
     }
     pub fn glyphset() -> Profile {
         Profile { min_axes: 0, max_axes: 1, max_glyphs: 14, min_glyphs: 1, outlines: false, cubic: false, components: 4, transforms: false, mixed: true, sparse: 0,
-            order_variety: true, non_export: true, metrics_class_a: false, vertical: false, half_coords: false, maps: false, awkward_axes: false, multi_codepoints: true, ps_names: true, anchors: false, kerning: false }
+            order_variety: true, non_export: true, metrics_class_a: false, vertical: false, half_coords: false, maps: false, awkward_axes: false, multi_codepoints: true, ps_names: true, anchors: false, kerning: false, instances: false, flat_maps: false }
     }
 }
 
@@ -247,6 +249,14 @@ impl SynthFont {
                 let mut u = [100.0, 50.0, 0.0][i] + ag.below(8) as f64 * 25.0;
                 let mut nodes = vec![];
                 for d in dn { nodes.push((u, d)); u += (1 + ag.below(12)) as f64 * [25.0, 12.5, 6.25, 1.0625][ag.below(4)]; }
+                // flat segment: an extra user node mapping to the same design value as an interior node
+                if p.flat_maps && nodes.len() >= 4 && ag.chance(1, 4) {
+                    let k = 1 + ag.below(nodes.len() - 2);
+                    if nodes[k].1 != axis.d_default && nodes[k].1 != axis.d_min() && nodes[k].1 != axis.d_max() {
+                        let (u0, d0) = nodes[k]; let u1 = nodes[k + 1].0;
+                        nodes.insert(k + 1, ((u0 + u1) / 2.0, d0));
+                    }
+                } else { ag.word(); }
                 axis.map = Some(nodes);
             }
             axes.push(axis);
@@ -465,7 +475,23 @@ impl SynthFont {
         } else { None };
 
         let _ = (n_full, layer_locs);
-        SynthFont { upem, axes, sources, glyphs, glyph_order, skip_export, ps_names, categories_explicit: false, features: None, instances: vec![], rules: vec![], rules_processing_last: false, lib_filters: vec![] }
+        // ---- named instances
+        let mut instances = vec![];
+        let mut ig = g.fork(40);
+        if p.instances && !axes.is_empty() {
+            let n = ig.below(5);
+            let inst_names = ["Regular", "Bold", "Light Condensed", "Synth", "Black Wide", "Medium", "Weight", "Thin"];
+            for k in 0..n {
+                let mut norm = vec![];
+                for a in &axes {
+                    let cands: Vec<f64> = [0.0, 1.0, -1.0, 0.5, -0.5, 0.25, 0.75, -0.25, 0.125].iter().copied().filter(|v| *v == 0.0 || if *v > 0.0 { a.d_above > 0.0 } else { a.d_below > 0.0 }).collect();
+                    norm.push(cands[ig.below(cands.len())]);
+                }
+                let style = inst_names[ig.below(inst_names.len())].to_string();
+                instances.push(Instance { family: Some("Synth".into()), style: Some(style.clone()), name: Some(format!("Synth {style} {k}")), ps_name: if ig.chance(1, 3) { Some(format!("Synth-{}", style.replace(' ', ""))) } else { None }, norm });
+            }
+        }
+        SynthFont { upem, axes, sources, glyphs, glyph_order, skip_export, ps_names, categories_explicit: false, features: None, instances, rules: vec![], rules_processing_last: false, lib_filters: vec![] }
     }
 }
 
